@@ -1,6 +1,7 @@
 import Driver.Util
 import MdspanVerif.Model.LayoutM
 import MdspanVerif.Model.SubM
+import MdspanVerif.Model.Adm
 /-! `sub` op family: machine-layer mirror of `submdspan_mapping` (repaired tree). -/
 open Mdspan
 
@@ -12,6 +13,11 @@ def parseSlice (s : String) : Option SliceI :=
   | ["r", a, b] => do let a ← a.toInt?; let b ← b.toInt?; pure (SliceI.range a b)
   | ["f"] => some SliceI.full
   | ["s", a, b, c] => do let a ← a.toInt?; let b ← b.toInt?; let c ← c.toInt?; pure (SliceI.strided a b c)
+  -- pair given as std::tuple, and the compile-time valued kinds: same values, other C++ types
+  | ["t", a, b] => do let a ← a.toInt?; let b ← b.toInt?; pure (SliceI.range a b)
+  | ["I", a] => a.toInt?.map SliceI.idx
+  | ["R", a, b] => do let a ← a.toInt?; let b ← b.toInt?; pure (SliceI.range a b)
+  | ["S", a, b, c] => do let a ← a.toInt?; let b ← b.toInt?; let c ← c.toInt?; pure (SliceI.strided a b c)
   | _ => none
 
 def SliceI.wrapT (T : ITy) : SliceI → SliceI
@@ -57,9 +63,64 @@ def subMapping (T : ITy) (kind : String) (es ss : List Int) (sls : List SliceI) 
     let strs ← subStridesM T true sls src
     pure { off := off, exts := xs, kind := "stride", strs := strs }
 
-def subOp (T : ITy) (kind : String) (es ss : List Int) (sls : List SliceI) : String :=
+/-- all multi-indices inside `es`, row-major -/
+def allIdx : List Int → List (List Int)
+  | [] => [[]]
+  | e :: es => (List.range e.toNat).flatMap (fun (i : Nat) => (allIdx es).map (fun t => Int.ofNat i :: t))
+
+def subAlias (T : ITy) (r : SubRes) : M (List Int) :=
+  if r.exts.any (· ≤ 0) then pure [] else
+  ((allIdx r.exts).take 4096).mapM (fun js => do
+    let v ← (match r.kind with
+      | "left" => leftOffM T r.exts js
+      | "right" => rightOffM T r.exts js
+      | _ => strideOffM T js r.strs)
+    pure (ITy.u64.wrap (r.off + ITy.u64.wrap v)))
+
+def toSlice : SliceI → Option Slice
+  | .idx i => if i < 0 then none else some (.idx i.toNat)
+  | .range b e => if b < 0 || e < 0 then none else some (.range b.toNat e.toNat)
+  | .full => some .full
+  | .strided o x s => if o < 0 || x < 0 || s < 0 then none else some (.strided o.toNat x.toNat s.toNat)
+
+def slicesValidB : List Slice → List Nat → Bool
+  | [], [] => true
+  | sl :: sls, e :: es =>
+    (match sl with
+      | .idx i => i < e
+      | .range b e' => b ≤ e' && e' ≤ e
+      | .full => true
+      | .strided o x s => o + x ≤ e && (x == 0 || 0 < s)) && slicesValidB sls es
+  | _, _ => false
+
+def subAdm (T : ITy) (kind : String) (es ss : List Int) (sls : List SliceI) : Bool :=
+  if es.any (· < 0) || ss.any (· < 0) then false else
+  let esN := es.map Int.toNat
+  let L : Layout := match kind with
+    | "left" => .left esN
+    | "right" => .right esN
+    | _ => .stride esN (ss.map Int.toNat)
+  match sls.mapM toSlice with
+  | none => false
+  | some sl => L.admB T && slicesValidB sl esN
+
+def subOp (T : ITy) (kind : String) (es ss : List Int) (sls : List SliceI) (op : String) : String :=
+  if op == "adm" then s!"ok {fmtB (subAdm T kind es ss sls)}" else
   match subMapping T kind es ss sls with
-  | .ok r => s!"off={r.off} ext={fmtL r.exts} kind={r.kind} str={fmtL r.strs}"
+  | .ok r =>
+    if op == "alias" then showL (subAlias T r)
+    else
+      let spans : M (Int × Int) := do
+        let sp ← (match r.kind with
+          | "stride" => spanStrideM T r.exts r.strs
+          | _ => spanLRM T r.exts)
+        let ssp ← (match kind with
+          | "stride" => spanStrideM T es ss
+          | _ => spanLRM T es)
+        pure (sp, ssp)
+      match spans with
+      | .ok (sp, ssp) => s!"off={r.off} ext={fmtL r.exts} kind={r.kind} str={fmtL r.strs} span={sp} sspan={ssp}"
+      | .error e => ubStr e
   | .error e => ubStr e
 
 def subLine (kind ty : String) (rest : List String) : String :=
@@ -70,7 +131,7 @@ def subLine (kind ty : String) (rest : List String) : String :=
     let ss := wrapL T (parseList ((getKey rest "str").getD "-"))
     let sl := ((getKey rest "sl").getD "").splitOn ";"
     match sl.mapM parseSlice with
-    | some sls => subOp T kind es ss (sls.map (SliceI.wrapT T))
+    | some sls => subOp T kind es ss (sls.map (SliceI.wrapT T)) ((plainToks rest).headD "info")
     | none => "bad-op"
 
 end Drv
